@@ -46,7 +46,7 @@ WATCHDOG = {"quick": 600, "thorough": 3000}
 def plan(tier):
     if tier == "thorough":
         return [{"variant": "plain", "workers": 16, "cases": 24000}]
-    return [{"variant": "plain", "workers": 8, "cases": 600}]
+    return [{"variant": "plain", "workers": 8, "cases": 1500}]
 
 
 # thresholds on the normalised residuals  r = ||R|| / (u * max(1,n) * scale).
@@ -1324,12 +1324,13 @@ def fam_gv(E, c):
     itype, jobz, uplo = rng.choice([1, 2, 3]), rng.choice("NV"), rng.choice("LU")
     A0 = R.herm_with_eigs(rng, R.separated(rng, n), tc)
     B0 = R.herm_posdef(rng, n, tc, cond=30.0)
-    ldaonly = (mode == "emb" and rng.random() < 0.5)
-    if ldaonly:
-        A = Blk(rng, R.junk_other_triangle(rng, A0, uplo, tc), tc, "emb", "A", nooff=True)
+    variant = rng.choice(["full", "ldA", "ldA+offsetA"]) if mode == "emb" else "nat"
+    if variant in ("ldA", "ldA+offsetA"):
+        # only A embedded; B and W natural (their size arguments defaulted)
+        A = Blk(rng, R.junk_other_triangle(rng, A0, uplo, tc), tc, "emb", "A", nooff=(variant == "ldA"))
         B = Blk(rng, R.junk_other_triangle(rng, B0, uplo, tc), tc, "nat", "B")
         W = Blk(rng, np.zeros(n), "d", "nat", "W", tcrule="fixed")
-        kw = {"n": n}; kw.update(A.kw("ldA", None)); B.kw(None, None); W.kw(None, None)
+        kw = {"n": n}; kw.update(A.kw("ldA", None if variant == "ldA" else "offsetA")); B.kw(None, None); W.kw(None, None)
     else:
         A = Blk(rng, R.junk_other_triangle(rng, A0, uplo, tc), tc, mode, "A")
         B = Blk(rng, R.junk_other_triangle(rng, B0, uplo, tc), tc, mode, "B")
@@ -1341,11 +1342,12 @@ def fam_gv(E, c):
         kw["jobz"] = jobz
     if uplo == "U" or rng.random() < 0.5:
         kw["uplo"] = uplo
-    ok, _ = call(c, fname, [A, B, W], kw, mutable=n > 0, grow=["n"])
+    nfail0 = len(c.failed)
+    ok, _ = call(c, fname, [A, B, W], kw, mutable=n > 0 and variant in ("full", "nat"), grow=["n"])
     if ok:
         foot(c, fname, A, B, W)
         if n:
-            what = "%s(itype=%d,jobz=%s,uplo=%s)" % (fname, itype, jobz, uplo)
+            what = "%s(itype=%d,jobz=%s,uplo=%s,storage=%s)" % (fname, itype, jobz, uplo, variant)
             Lc = np.linalg.cholesky(B0)
             Li = np.linalg.inv(Lc)
             Cm = Li @ A0 @ R.H(Li) if itype == 1 else R.H(Lc) @ A0 @ Lc
@@ -1373,7 +1375,14 @@ def fam_gv(E, c):
                     Or = R.H(Zm) @ Bi @ Zm - np.eye(n); so = E.nrm(Bi) * E.nrm(Zm) ** 2
                 resid(c, "geig", fname + ":eigen-residual", Rs, sc, n, what + ": generalised eigen equation")
                 resid(c, "geig", fname + ":eigenvectors-not-B-orthonormal", Or, so, n, what + ": Z^H B Z - I (resp. B^-1)")
-    c.cls("gv", fname, tc, mode, itype, jobz, uplo, E.sz(n))
+    if variant == "ldA+offsetA" and len(c.failed) > nfail0:
+        # one mechanism, many symptoms (exception, wrong values, writes outside A): a single stable key
+        sub = c.failed[nfail0:]
+        del c.failed[nfail0:]
+        c.fail("%s:wrong-with-offsetA-and-default-ldB" % fname,
+               "%s(A, B, W, n=, ldA=, offsetA=%d) with B, W natural misbehaves: %s" % (fname, A.off, "; ".join(f["key"] for f in sub)),
+               symptoms=[{"key": f["key"], "msg": f["msg"]} for f in sub])
+    c.cls("gv", fname, tc, variant, itype, jobz, uplo, E.sz(n))
 
 
 # ============================================================================
